@@ -29,7 +29,12 @@ pub fn qr_of(v: usize, seed: u64) -> QRCode {
     let lo = if v == 1 { 1 } else { capacity(2, e, v - 1) + 1 };
     let n = r.gen_range(lo..=cap);
     let spec = BuildSpec { input: payload(&mut r, 2, n, true), ecl: Some(e), mode: None, version: Some(v), mask: None, grp: 0, tag: String::new(), lite: false };
-    spec.builder().build().unwrap_or_else(|_| panic!("render scenario could not build a version {v} symbol"))
+    // a build that panics or fails here is C10's business (the build scenarios report it); the render scenarios then go on with
+    // an all-light symbol of the right size and say so on stderr, instead of taking the whole driver down
+    match run_build(&spec) {
+        Outcome::Ok(qr) => *qr,
+        _ => { eprintln!("render scenario: could not build a version {v} symbol; using a blank one"); QRCode::default(17 + 4 * v) }
+    }
 }
 pub fn vals_of(qr: &QRCode) -> Vec<Vec<u32>> { pack_matrix(&qr_modules(qr), qr.size).0 }
 
